@@ -1,4 +1,4 @@
-import Verif.C19.Layout
+import Verif.C19.Leaves
 /-!
 # C19 — property theorems
 
@@ -23,7 +23,7 @@ theorem types_wellformed (t : Ty) : IsAl (gcAlignof t) ∧ gcAlignof t ∣ gcSiz
 
 example : IsAl (gcAlignof (.struct (.cons "a" (.prim .i8) (.cons "b" (.prim .c128) .nil)))) ∧
     gcSizeof (.struct (.cons "a" (.prim .i8) (.cons "b" (.prim .c128) .nil))) = 24 := by
-  decide
+  unfold IsAl; decide
 
 /-- gcsizes.Sizeof and gcsizes.Alignof agree with the compiler's rules for every type. -/
 theorem gcsizes_eq_gc (t : Ty) : gcsSizeof t = gcSizeof t ∧ gcsAlignof t = gcAlignof t := gcs_eq t
@@ -91,6 +91,25 @@ example : layout "T" (.cons "p" (.prim .i64) (.cons "q" (.struct (.cons "x" (.pr
       (.cons "z" (.struct .nil) .nil))) =
     [⟨["T", "p"], 0, 8, 8, 8, false⟩, ⟨["T", "q", "x"], 8, 16, 8, 8, false⟩, ⟨["T", "q", "y"], 16, 17, 1, 1, false⟩,
      ⟨[], 17, 24, 7, 0, true⟩, ⟨["T", "z"], 24, 25, 1, 1, false⟩, ⟨[], 25, 32, 7, 0, true⟩] := by
+  decide
+
+/-- **structlayout reports the field offsets, sizes and alignments the compiler uses**: for
+every struct type the field records are, in order, exactly the leaves of the struct as the
+compiler lays them out — dotted name, absolute offset (sum of the compiler's field offsets
+along the path), alignment and size; a zero-size leaf that ends a struct of non-zero size may
+be shown with the byte the compiler adds after it (size 1). -/
+theorem layout_fields_eq_gc (T : String) (fs : Fields) :
+    MatchAll (fieldsOf (layout T fs)) (gcLeavesFields [T] 0 0 fs) := by
+  by_cases h : fs = .nil
+  · subst h; simp [layout, Fields.isNil, fieldsOf, gcLeavesFields, MatchAll]
+  · have hn : ¬ fs.isNil = true := fun hh => h ((Fields.isNil_iff fs).mp hh)
+    have := layField_leaves (.struct fs) [T] 0 (.struct fs)
+    simp only [layField, gcLeavesTy, hn, Bool.false_eq_true, if_false] at this
+    simpa only [layout, laySizes, hn, Bool.false_eq_true, if_false] using this
+
+example : gcLeavesFields ["T"] 0 0 (.cons "p" (.prim .i64) (.cons "q" (.struct (.cons "x" (.prim .i64) (.cons "y" (.prim .i8) .nil)))
+      (.cons "z" (.struct .nil) .nil))) =
+    [⟨["T", "p"], 0, 8, 8⟩, ⟨["T", "q", "x"], 8, 8, 8⟩, ⟨["T", "q", "y"], 16, 1, 1⟩, ⟨["T", "z"], 24, 0, 1⟩] := by
   decide
 
 /-! ## Part 3: structlayout-optimize -/
@@ -213,29 +232,10 @@ theorem optimize_not_larger (input : List Rec) (size : Nat) (h : GoodInput input
     exact h.pow2 f hf.1 hf.2
   refine Nat.le_trans (pad_optimize_spec (fieldsOf input) ha hp).2.2 ?_
   have hfit := rsum_le_of_roomy input 0 h.valid.tiles h.valid.well h.roomy
-  apply roundUp_min (padAlignment_pos _ hp)
-  · -- the maximal alignment divides the original size
-    rcases (by
-      have att : ∀ (l : List Rec) (m : Nat),
-          l.foldl (fun m f => if f.align > m then f.align else m) m = m ∨
-          ∃ f ∈ l, f.align = l.foldl (fun m f => if f.align > m then f.align else m) m := by
-        intro l
-        induction l with
-        | nil => intro m; simp
-        | cons x r ih =>
-          intro m
-          simp only [List.foldl_cons]
-          rcases ih (if x.align > m then x.align else m) with h | ⟨f, hf, he⟩
-          · by_cases hx : x.align > m
-            · right; exact ⟨x, by simp, by rw [h]; simp [hx]⟩
-            · left; rw [h]; simp [hx]
-          · right; exact ⟨f, by simp [hf], he⟩
-      exact att (fieldsOf input) 1) with h1 | ⟨f, hf, he⟩
-    · unfold padAlignment; rw [h1]; exact Nat.one_dvd _
-    · unfold padAlignment; rw [← he]
-      simp only [fieldsOf, List.mem_filter, Bool.not_eq_eq_eq_not, Bool.not_true] at hf
-      exact h.valid.size_aligned f hf.1 hf.2
-  · omega
+  apply pad_optimize_le _ _ hp (by omega)
+  intro f hf
+  simp only [fieldsOf, List.mem_filter, Bool.not_eq_eq_eq_not, Bool.not_true] at hf
+  exact h.valid.size_aligned f hf.1 hf.2
 
 /-- the same under the simpler hypothesis that sizes are multiples of alignments -/
 theorem optimize_not_larger_of_dvd (input : List Rec) (size : Nat) (hv : ValidLayout input size)
@@ -248,5 +248,104 @@ never larger than the struct (compiler's size). -/
 theorem optimize_r_layout_not_larger (T : String) (fs : Fields) :
     total (optimizeMain true (layout T fs)) ≤ gcSizeof (.struct fs) :=
   optimize_not_larger _ _ (layout_is_good_input T fs)
+
+-- non-vacuity of `optimize_not_larger`: structlayout's records of
+-- `struct{x int32; a int8; b int64; y int32; c int8; d int64}` (32 bytes) are a good input,
+-- and the optimized layout has 32 bytes (the unfixed `combine` produced 40).
+example : GoodInput (layout "T" (.cons "x" (.prim .i32) (.cons "a" (.prim .i8) (.cons "b" (.prim .i64)
+    (.cons "y" (.prim .i32) (.cons "c" (.prim .i8) (.cons "d" (.prim .i64) .nil))))))) 32 :=
+  layout_is_good_input "T" _
+
+/-- `struct{x int32; a int8; b int64; y int32; c int8; d int64}` -/
+def exGrow : Fields := .cons "x" (.prim .i32) (.cons "a" (.prim .i8) (.cons "b" (.prim .i64)
+    (.cons "y" (.prim .i32) (.cons "c" (.prim .i8) (.cons "d" (.prim .i64) .nil)))))
+
+example : total (optimizeMain true (layout "T" exGrow)) = 32 := by
+  rw [optimizeMain_true]
+  have h1 : fieldsOf (layout "T" exGrow) =
+      [⟨["T", "x"], 0, 4, 4, 4, false⟩, ⟨["T", "a"], 4, 5, 1, 1, false⟩, ⟨["T", "b"], 8, 16, 8, 8, false⟩,
+       ⟨["T", "y"], 16, 20, 4, 4, false⟩, ⟨["T", "c"], 20, 21, 1, 1, false⟩, ⟨["T", "d"], 24, 32, 8, 8, false⟩] := by
+    decide
+  have h2 : optimize [⟨["T", "x"], 0, 4, 4, 4, false⟩, ⟨["T", "a"], 4, 5, 1, 1, false⟩, ⟨["T", "b"], 8, 16, 8, 8, false⟩,
+       ⟨["T", "y"], 16, 20, 4, 4, false⟩, ⟨["T", "c"], 20, 21, 1, 1, false⟩, ⟨["T", "d"], 24, 32, 8, 8, false⟩] =
+      [⟨["T", "b"], 8, 16, 8, 8, false⟩, ⟨["T", "d"], 24, 32, 8, 8, false⟩, ⟨["T", "x"], 0, 4, 4, 4, false⟩,
+       ⟨["T", "y"], 16, 20, 4, 4, false⟩, ⟨["T", "a"], 4, 5, 1, 1, false⟩, ⟨["T", "c"], 20, 21, 1, 1, false⟩] := by
+    simp [optimize, List.mergeSort, List.MergeSort.Internal.splitInTwo, sortLe, less]
+  rw [h1, h2]
+  decide
+
+-- the hypothesis "roomy" cannot be dropped: a valid layout of 16 bytes with power-of-two
+-- alignments in which two fields of size 1 and alignment 8 are each followed directly by
+-- byte-aligned fields is laid out in 24 bytes once the two are placed first (each then needs
+-- a slot of 8 bytes): `pad` of the sorted fields
+example : total (pad ([⟨["T", "a"], 0, 1, 1, 8, false⟩, ⟨["T", "b"], 8, 9, 1, 8, false⟩] ++
+    (List.range 14).map (fun _ => ⟨["T", "c"], 0, 1, 1, 1, false⟩))) = 24 := by
+  decide
+
+/-! ## Part 4: the default mode (without -r): `combine`, then the same -/
+
+/-- **`combine` reports the top-level fields as the compiler lays them out**: for every struct
+type with distinct field names, the records that structlayout-optimize (default mode) sorts
+are the top-level fields with the compiler's offset, size and alignment (`topRecs`; a
+zero-size last field of a non-zero-size struct has size `Alignof`). -/
+theorem combine_layout_fields (T : String) (fs : Fields) (hnd : (Fields.names fs).Nodup) :
+    combine (layout T fs) = topRecs T (gcSizeof (.struct fs)) 0 fs := combine_layout T fs hnd
+
+example : combine (layout "T" (.cons "p" (.prim .i8) (.cons "q" (.struct (.cons "x" (.prim .i64) (.cons "y" (.prim .i8) .nil)))
+      (.cons "z" (.array 0 (.prim .i64)) .nil)))) =
+    [⟨["T", "p"], 0, 1, 1, 1, false⟩, ⟨["T", "q"], 8, 24, 16, 8, false⟩, ⟨["T", "z"], 24, 32, 8, 8, false⟩] := by
+  decide
+
+theorem topRecs_allFields (T : String) (fs : Fields) :
+    AllFields (topRecs T (gcSizeof (.struct fs)) 0 fs) ∧ ∀ f ∈ topRecs T (gcSizeof (.struct fs)) 0 fs, Pow2 f.align := by
+  have h := topRecs_props T (gcSizeof (.struct fs)) fs 0
+  exact ⟨fun f hf => ⟨(h f hf).1, (h f hf).2.1.pos⟩, fun f hf => (h f hf).2.1.pow2⟩
+
+theorem optimizeMain_false_layout (T : String) (fs : Fields) (hnd : (Fields.names fs).Nodup) :
+    optimizeMain false (layout T fs) = pad (optimize (topRecs T (gcSizeof (.struct fs)) 0 fs)) := by
+  rw [optimizeMain_false, optimizeMain_true, combine_layout T fs hnd,
+    fieldsOf_allFields _ (topRecs_allFields T fs).1]
+
+/-- `structlayout -json T | structlayout-optimize` outputs a permutation of the struct's
+top-level fields (name, size, alignment as the compiler has them). -/
+theorem optimize_layout_perm (T : String) (fs : Fields) (hnd : (Fields.names fs).Nodup) :
+    ((fieldsOf (optimizeMain false (layout T fs))).map Rec.key).Perm
+      ((topRecs T (gcSizeof (.struct fs)) 0 fs).map Rec.key) := by
+  rw [optimizeMain_false_layout T fs hnd]
+  exact (pad_optimize_spec _ (topRecs_allFields T fs).1 (topRecs_allFields T fs).2).2.1
+
+/-- … and with `-r` a permutation of structlayout's field records. -/
+theorem optimize_r_layout_perm (T : String) (fs : Fields) :
+    ((fieldsOf (optimizeMain true (layout T fs))).map Rec.key).Perm ((fieldsOf (layout T fs)).map Rec.key) :=
+  optimize_perm _ (layout_is_good_input T fs).pow2
+
+/-- For every struct type, in both modes, the output is a valid layout. -/
+theorem optimize_layout_valid (T : String) (fs : Fields) (hnd : (Fields.names fs).Nodup) (r : Bool) :
+    ValidLayout (optimizeMain r (layout T fs)) (total (optimizeMain r (layout T fs))) := by
+  cases r with
+  | true => exact optimize_valid _ (layout_is_good_input T fs).pow2
+  | false =>
+    rw [optimizeMain_false_layout T fs hnd]
+    exact (pad_optimize_spec _ (topRecs_allFields T fs).1 (topRecs_allFields T fs).2).1
+
+/-- **optimize never grows a struct**: for every struct type of the grammar (distinct field
+names), `structlayout -json T | structlayout-optimize [-r]` yields a layout whose size is at
+most the compiler's `Sizeof T`. -/
+theorem optimize_layout_not_larger (T : String) (fs : Fields) (hnd : (Fields.names fs).Nodup) (r : Bool) :
+    total (optimizeMain r (layout T fs)) ≤ gcSizeof (.struct fs) := by
+  cases r with
+  | true => exact optimize_r_layout_not_larger T fs
+  | false =>
+    rw [optimizeMain_false_layout T fs hnd]
+    obtain ⟨ha, hp⟩ := topRecs_allFields T fs
+    obtain ⟨hfit, hdiv⟩ := topRecs_fit T fs
+    exact Nat.le_trans (pad_optimize_spec _ ha hp).2.2 (pad_optimize_le _ _ hp hfit hdiv)
+
+-- non-vacuity: two nested structs ending in zero-size aligned fields (40 bytes)
+example : (Fields.names (.cons "q" (.struct (.cons "x" (.prim .i64) (.cons "z" (.array 0 (.prim .i64)) .nil)))
+    (.cons "r" (.struct (.cons "y" (.prim .i64) (.cons "z" (.array 0 (.prim .i64)) .nil))) (.cons "s" (.prim .i8) .nil)))).Nodup ∧
+    gcSizeof (.struct (.cons "q" (.struct (.cons "x" (.prim .i64) (.cons "z" (.array 0 (.prim .i64)) .nil)))
+    (.cons "r" (.struct (.cons "y" (.prim .i64) (.cons "z" (.array 0 (.prim .i64)) .nil))) (.cons "s" (.prim .i8) .nil)))) = 40 := by
+  decide
 
 end Verif.C19
